@@ -1,4 +1,5 @@
 import XlModel.Readers
+import XlModel.ReadersState
 import XlModel.Drv.Util
 /-
 Line protocol of C04 (one output line per input line):
@@ -96,6 +97,21 @@ def step (st : St) (w : List String) : St × String :=
     | some c, some r => withLoaded st fun w =>
       if inGrid c r then (⟨st.raw, ⟨getCellStyleState w.sheet c r, true⟩⟩, "ok") else (⟨st.raw, w⟩, "E_COORDS")
     | _, _ => (st, "bad-op")
+  | "mergewit" :: c :: r :: rest =>
+    -- a cell (c,r) = "v" outside every given range; MergeCell each range; GetCellValue, GetMergeCells, GetCellValue
+    match c.toNat?, r.toNat?, rest.mapM (·.toNat?) with
+    | some c, some r, some ns =>
+      let rec rects : List Nat → List Grid.MObj
+        | a :: b :: c2 :: d :: t => mrange a b c2 d :: rects t
+        | _ => []
+      let ms := rects ns
+      let sh : Sheet := (List.range r).map fun i =>
+        ⟨i + 1, false, if i + 1 = r then [⟨c, r, ['v'], false, false⟩] else []⟩
+      let b := if getCellValueM sh ms c r = ['v'] then 1 else 0
+      let ms' := getMergeCellsState ms
+      let a := if getCellValueM sh ms' c r = ['v'] then 1 else 0
+      (st, s!"ok {b} {ms'.length} {a}")
+    | _, _, _ => (st, "bad-op")
   | ["dump"] => withLoaded st fun w => (⟨st.raw, w⟩, showDump w.sheet)
   | ["spec", c, r] =>
     match c.toNat?, r.toNat? with
